@@ -89,6 +89,8 @@ fn parse_binary_operations(
     let mut rights = Vec::new();
     // First attempt to parse an operator
     while let Ok((rest, op)) = operator_fn(input) {
+        #[cfg(feature = "verif-hooks")]
+        rssl_text::verif::tick(7);
         // Then after an operator is successfully parsed
         // Unconditionally parse right side
         let (rest, right) = expression_fn(rest)?;
